@@ -286,6 +286,24 @@ func Cells1Menu() []spec.Batch {
 	return rv
 }
 
+// Cols3Menu: every 3-document batch whose documents draw field a from the 12-entry cell
+// menu (index = (c0*NumCells+c1)*NumCells+c2; stored values and doc values on): hits of
+// one term in up to three documents of one segment with every combination of frequency
+// / norm / location shapes, so that a merge can drop the first, a middle or the last one.
+func Cols3Menu() []spec.Batch {
+	var rv []spec.Batch
+	Product(3, NumCells, func(v []int) {
+		var b spec.Batch
+		for d, c := range v {
+			doc := spec.Doc{ID: fmt.Sprintf("k%d-%d", d, c)}
+			doc.Fields = append(doc.Fields, cell("a", c, 3)...)
+			b.Docs = append(b.Docs, doc)
+		}
+		rv = append(rv, b)
+	})
+	return rv
+}
+
 // Stored1Menu: every single-document batch of the 9-entry stored-field cell menu.
 func Stored1Menu() []spec.Batch {
 	var rv []spec.Batch
@@ -314,6 +332,8 @@ func menuOf1(name string) []spec.Batch {
 	switch name {
 	case "cells1":
 		return Cells1Menu()
+	case "cols3":
+		return Cols3Menu()
 	case "stored1":
 		return Stored1Menu()
 	case "big":
@@ -339,7 +359,7 @@ func VecMenu() []spec.Batch {
 		return VecCase{Docs: cells, Metric: metric}.Batch()
 	}
 	wOnly := spec.Batch{Docs: []spec.Doc{{ID: "w0", Fields: []spec.Field{fld("f", 1, tok("x", 1)),
-		{Name: "w", Kind: spec.Vector, Vec: []float32{3, 2, 1, 0, 1, 0}, Dims: 3, Sim: "l2_norm", Opt: "latency"}}}}}
+		{Name: "w", Kind: spec.Vector, Vec: []float32{3, 2, 1, 0, 1, 0}, Dims: 3, Sim: "dot_product", Opt: "latency"}}}}}
 	noVecField := spec.Batch{Docs: []spec.Doc{{ID: "n0", Fields: []spec.Field{fld("f", 1, tok("x", 1))}}}}
 	return []spec.Batch{
 		mk("l2_norm", 2, 4),    // M0: g1 ; g3
